@@ -23,6 +23,8 @@ HASHSET_INSERT = "std::collections::hash::set::HashSet::<T, S, A>::insert"
 HASHSET_REMOVE = "std::collections::hash::set::HashSet::<T, S, A>::remove"
 HASHSET_CONTAINS = "std::collections::hash::set::HashSet::<T, S, A>::contains"
 THREAD_SPAWN = "std::thread::functions::spawn"
+THREAD_BUILDER_SPAWN = "std::thread::builder::Builder::spawn"      # Builder::new().name(..).spawn(f): the closure is argument 1
+THREAD_SPAWNS = (THREAD_SPAWN, THREAD_BUILDER_SPAWN)
 TOKIO_SPAWN = "tokio::task::spawn::spawn"
 TOKIO_SPAWN_BLOCKING = "tokio::task::blocking::spawn_blocking"
 
